@@ -184,7 +184,19 @@ def run(ctx, R, tier):
                                                                       for t in (x.targets if hasattr(x, "targets") else [])) for x in ast.walk(lp_)) or \
                 any(isinstance(x, ast.Call) and isinstance(x.func, ast.Attribute) and x.func.attr in ("pop", "popitem", "clear", "update", "setdefault") and "streaming_responses" in unparse(x.func.value)
                     for x in ast.walk(lp_))
-        loops = [n for n in walk_no_nested(fn.node) if isinstance(n, ast.For) and ("streaming_responses" in unparse(n.iter) or edits_table(n))]
+        # a local that merely names the table (`streams = self.streaming_responses`) is the table
+        aliases = {t.id for st_, t, k_ in stores_in(fn.node) if k_ == "assign" and isinstance(t, ast.Name) and isinstance(getattr(st_, "value", None), ast.Attribute)
+                   and st_.value.attr == "streaming_responses"}
+
+        def over_table(it_):
+            return "streaming_responses" in unparse(it_) or any(isinstance(x, ast.Name) and x.id in aliases for x in ast.walk(it_))
+
+        def edits_alias(lp_):
+            return any(isinstance(x, (ast.Delete, ast.Assign)) and any(isinstance(t, ast.Subscript) and isinstance(t.value, ast.Name) and t.value.id in aliases
+                                                                      for t in (x.targets if hasattr(x, "targets") else [])) for x in ast.walk(lp_)) or \
+                any(isinstance(x, ast.Call) and isinstance(x.func, ast.Attribute) and x.func.attr in ("pop", "popitem", "clear", "update", "setdefault") and isinstance(x.func.value, ast.Name)
+                    and x.func.value.id in aliases for x in ast.walk(lp_))
+        loops = [n for n in walk_no_nested(fn.node) if isinstance(n, ast.For) and (over_table(n.iter) or edits_table(n) or edits_alias(n))]
         if not loops:
             raise AnalysisError("%s: loops over streaming_responses vanished" % fn.qualname)
         for i, lp in enumerate(loops):
@@ -199,6 +211,7 @@ def run(ctx, R, tier):
                           for x in ast.walk(lp)) or \
                 any(isinstance(x, ast.Call) and isinstance(x.func, ast.Attribute) and x.func.attr in ("pop", "popitem", "clear", "update", "setdefault") and "streaming_responses" in unparse(x.func.value)
                     for x in ast.walk(lp))
+            mutates = mutates or edits_alias(lp)
             R.check(snap or not mutates, "C13-R3", "%s|stream-loop#%d-snapshot" % (fn.name, i), "the loop that edits the stream table iterates a snapshot of it", fn.loc(lp),
                     "`for ... in %s` deletes/rewrites entries of the dict it is iterating: the first edit raises RuntimeError, the rest of the function "
                     "(for _clientDisconnect: the user's disconnect hook) is skipped" % unparse(it))
